@@ -163,9 +163,11 @@ pub fn yield_point(site: &'static str) {
         Do::Budget => std::panic::panic_any(BudgetExceeded),
         Do::Yield(sim, w, t, step, noise) => {
             // legal environment noise: somebody else in the host allocated marks
-            for _ in 0..noise {
+            for i in 0..noise {
                 let m = Mark::new();
-                let _ = SyntaxContext::empty().apply_mark(m);
+                if (step + i) % 2 == 0 {
+                    let _ = SyntaxContext::empty().apply_mark(m);
+                }
             }
             sim.yield_from_worker(w, t, step, site);
         }
